@@ -3,6 +3,7 @@ Unit system class.
 
 """
 
+import sys
 from collections import OrderedDict
 
 from unyt import dimensions
@@ -266,6 +267,12 @@ class UnitSystem:
         if self.units_map[cmks] is None and cmks in key.free_symbols:
             raise MissingMKSCurrent(self.name)
         self.units_map[key] = parse_unyt_expr(str(value))
+        # conversions of electromagnetic units memoise what this system answered
+        # (unit_object imports this module, and the built-in systems are set up
+        # while it is still loading)
+        unit_object = sys.modules.get("unyt.unit_object")
+        if hasattr(unit_object, "_check_em_conversion"):
+            unit_object._check_em_conversion.cache_clear()
 
     def __str__(self):
         return self.name
